@@ -160,17 +160,57 @@ Print Assumptions C18_departure_notification_kept.
 
 (* ---- rooms never joined, invitations ---- *)
 
-(* Presences from an address no join was ever requested for change nothing:
-   no state change, no callback, no effect on any call. *)
+(* Presences from an address no join was ever requested for change nothing,
+   whatever their payload is — well-formed (available or unavailable) or one that
+   does not decode (PresBad: unknown role or affiliation, malformed jid): the
+   resulting state is the state before, so there is no callback, no effect on
+   any call, the Serve loop is still idle (no error was returned to it) and
+   everything that could happen before can happen after, e.g. a later join. *)
 Theorem C18_unjoined_rooms_ignored : forall tr s a,
   exec tr = Some s -> (forall k, ~ In (LCall k KJoin a) tr) -> srv s = SIdle ->
-  step s (LDeliver (PresAvail a)) = Some s /\ step s (LDeliver (PresUnavail a)) = Some s.
+  step s (LDeliver (PresAvail a)) = Some s /\ step s (LDeliver (PresUnavail a)) = Some s /\
+  step s (LDeliver (PresBad a)) = Some s.
 Proof. exact unjoined_rooms_ignored. Qed.
 Print Assumptions C18_unjoined_rooms_ignored.
 
-(* The invitation callback log is exactly the sequence of invitations handled:
-   each one once, in order. *)
-Theorem C18_invitation_once : forall tr s,
-  exec tr = Some s -> cb_inv s = invites_of tr.
-Proof. exact invites_exactly_once. Qed.
-Print Assumptions C18_invitation_once.
+(* (The contrast, to show that the payload matters where the address is managed:
+   there the undecodable payload is an error that ends the Serve loop.) *)
+Theorem C18_managed_bad_payload_ends_serve : forall s a,
+  srv s = SIdle -> ch_entry (chans s a) = true ->
+  exists s', step s (LDeliver (PresBad a)) = Some s' /\ srv s' = SDead /\
+             forall st, step s' (LDeliver st) = None.
+Proof. exact managed_bad_payload_ends_serve. Qed.
+Print Assumptions C18_managed_bad_payload_ends_serve.
+
+(* ---- invitations ----
+   A normal message is a list of child elements: muc#user payloads with an
+   invite (CInvite i), muc#user payloads without (declined invitation, status),
+   x elements of other namespaces (jabber:x:conference, delay, ...), anything
+   else. [invites_of tr] is the property's side: every invite element of every
+   delivered message, once, in order. *)
+Definition C18_invitation_once_statement : Prop :=
+  forall tr s, exec tr = Some s -> cb_inv s = invites_of tr.
+
+(* It holds on every history whose messages carry at most one muc#user payload
+   each, whatever other children they have and however many ... *)
+Theorem C18_invitation_once_partial : forall tr s,
+  exec tr = Some s ->
+  (forall cs, In (LDeliver (Msg cs)) tr -> single_payload cs) ->
+  cb_inv s = invites_of tr.
+Proof. exact invites_once_partial. Qed.
+Print Assumptions C18_invitation_once_partial.
+
+(* ... in general the callback log is exactly [delivered_of tr]: per message,
+   one call per muc#user payload, each with the last payload's invitation ... *)
+Theorem C18_invitation_exact : forall tr s,
+  exec tr = Some s -> cb_inv s = delivered_of tr.
+Proof. exact invites_exact. Qed.
+Print Assumptions C18_invitation_exact.
+
+(* ... so the full statement is false: a message with two muc#user payloads
+   (the multiplexer runs the handler once per matching child and the handler
+   cannot tell which child it was run for). *)
+Theorem C18_invitation_once_refuted :
+  exists tr s, exec tr = Some s /\ cb_inv s <> invites_of tr.
+Proof. exact invites_once_refuted. Qed.
+Print Assumptions C18_invitation_once_refuted.
